@@ -33,6 +33,11 @@ class Prop(common.PropertyCheck):
         for i in range(self.budget(9, 60)):
             yield {'res': rng.choice([256, 1024, 4096]), 'units': ['raw', 'rfi', 'mef'][i % 3], 'scale': ['logicle', 'linear', 'log'][(i // 3) % 3], 'n': [None, 17, 'res'][i % 3],
                    'chform': ['name', 'list', 'all'][i % 3], 'over': None, 'dt': ['I', 'F'][i % 2], 'tinyneg': False, 'nan': False, 'seed': rng.randrange(1 << 30), 'empty': True}
+        # more bins than the channel has values (integer and floating-point samples alike)
+        for i in range(self.budget(9, 60)):
+            res = [256, 1000, 1024][i % 3]
+            yield {'res': res, 'units': ['raw', 'rfi', 'raw'][i % 3], 'scale': ['linear', 'log', 'logicle'][(i // 3) % 3], 'n': [res + 1, 2 * res + 3, res + 77][i % 3],
+                   'chform': ['name', 'list', 'all'][i % 3], 'over': None, 'dt': ['I', 'I', 'F'][i % 3], 'tinyneg': False, 'nan': False, 'seed': rng.randrange(1 << 30)}
         # one per-channel list of bin counts (None = default) used for two queries on channels of different resolution
         for i in range(self.budget(6, 40)):
             yield {'res': rng.choice([256, 4096, 65536]), 'units': ['raw', 'rfi'][i % 2], 'scale': ['linear', 'logicle', 'log'][i % 3], 'n': 'reuse', 'chform': 'list', 'over': None,
@@ -148,6 +153,14 @@ class Prop(common.PropertyCheck):
                     u = np.asarray(t.inverted().transform_non_affine(ev), dtype=float)      # data -> display (interpolated inverse)
                     du = np.diff(u)
                     out.setdefault('uniform_dev', {})[str(i)] = [float(np.max(np.abs(du - du.mean()))), float(t.M), float(t.T), float(t.W)]
+                if len(ev) >= 2 and np.all(np.isfinite(ev)):
+                    # the documented function, evaluated here from the parameters: edges = S(uniform grid from -d/2 to M + d/2), d = M/(res - 1)
+                    Tt, Mt, Wt, pt = float(t.T), float(t.M), float(t.W), float(t._p)
+                    dl = Mt / (float(f.resolution(c)) - 1.0)
+                    sg = np.linspace(-dl / 2.0, Mt + dl / 2.0, len(ev))
+                    doc = Tt * 10 ** (-(Mt - Wt)) * (10 ** (sg - Wt) - pt ** 2 * 10 ** (-(sg - Wt) / pt) + pt ** 2 - 1)
+                    scale_ = Tt * 10 ** (-(Mt - Wt)) * (1 + pt ** 2)
+                    out.setdefault('logicle_doc_dev', {})[str(i)] = [float(np.max(np.abs(ev - doc) / (np.abs(doc) + scale_))), Tt, Mt, Wt]
                 if 3 <= len(ev) <= 400 and np.all(np.isfinite(ev)):
                     # exact display positions: the forward function (display -> data) inverted by bisection for every edge
                     import scipy.optimize
@@ -236,6 +249,10 @@ class Prop(common.PropertyCheck):
                     centre = (e[k] + e[k + 1]) / 2 if scale == 'linear' else math.sqrt(e[k] * e[k + 1])
                     if abs(centre - vals[k]) > 1e-9 * max(1, abs(vals[k])):
                         return '%s scale: value %r is not at the centre %r of its bin' % (scale, vals[k], centre)
+            dd = (impl.get('logicle_doc_dev') or {}).get(str(i))
+            if dd and dd[0] > (3e-6 if case.get('dt') == 'F' else 1e-9):
+                return ('logicle edges differ from the images of the uniform display grid under the documented logicle function (T=%r M=%r W=%r, overrides %s) '
+                        'by up to %.3g relative' % (dd[1], dd[2], dd[3], case['over'], dd[0]))
             ux = (impl.get('uniform_exact') or {}).get(str(i))
             # single-precision samples evaluate the logicle expressions in single precision (relative 1e-7 of the value)
             if ux and ux[0] > (3e-6 if case.get('dt') == 'F' else 2e-8) * max(1.0, ux[1]):
